@@ -68,6 +68,16 @@ def check_pair(sh, A, B, da, db, full=True):
 	if gb != exp or float(np.float32(got)) != float(got):
 		sh.violation('jaccarddist', dict(A=list(A), B=list(B), da=da, db=db), exp, gb)
 		return
+	if full and (len(A) + len(B)) % 3 == 0:
+		# the same sets as non-contiguous views (every other element of a padded array) and as views into a larger buffer
+		pa = np.zeros(2 * len(A) + 1, dtype=da); pa[1::2] = A
+		pb = np.zeros(len(B) + 4, dtype=db); pb[2:2 + len(B)] = B
+		gv = f32bits(jaccarddist(pa[1::2], pb[2:2 + len(B)]))
+		sh.evals += 1
+		if gv != exp:
+			sh.violation('jaccarddist-strided-view', dict(A=list(A), B=list(B), da=da, db=db), exp, gv)
+			return
+		sh.count('strided_or_offset_views')
 	if full:
 		j = jaccard(a, b)
 		sh.evals += 1
@@ -257,6 +267,7 @@ def finalize(agg, tier):
 	agg.require('merge_ends_with_one_array_exhausted', 1000)
 	agg.require('rejected', 10)
 	agg.require('large_pairs', 50)
+	agg.require('strided_or_offset_views', 1000)
 	agg.require('skewed_pairs_with_shared_top_values', 100)
 	if len(agg.outcomes) < 1000:
 		from mc.core import Vacuous
